@@ -200,7 +200,7 @@ def grid_cases():
 
 def plan(tier):
     n = 16
-    per = 550 if tier == 'quick' else 14000
+    per = 1200 if tier == 'quick' else 20000
     return [dict(kind='grid')] + [dict(kind='hyp', n=per, max_leaves=(4, 6, 8, 12)[i % 4]) for i in range(n - 1)]
 
 
